@@ -1578,6 +1578,10 @@ class ValueString(Value):
                 ValueString("ERROR"),
                 "Cannot convert " + str(self.value) + " to date",
             )
+        raise CklRuntimeError(
+            ValueString("ERROR"),
+            "Cannot convert " + str(self.value) + " to date",
+        )
 
     def asPattern(self):
         return ValuePattern(self.value)
